@@ -77,7 +77,7 @@ def _gen_one(w, s, tier):
     small = pno <= 6
     return dict(engine="batchsim", prop="C16", screen=dict(control="", arity=2, rows=rows), k=k, max_len=3 * k,
                 path=s.choice(["func", "func", "func-reveal", "cli", "cli-reveal"]), multi=multi, seed=s.randrange(2**31),
-                enumerate=(tier == "thorough" and small and s.random() < 0.3), ties=s.random() < 0.3)
+                enumerate=(tier == "thorough" and pno <= 5 and s.random() < 0.3), ties=s.random() < 0.3)
 
 
 def execute(prop, plan):
@@ -222,9 +222,15 @@ def _run_screen(plan, spec, scratch, log, stats, violation):
     if any(len(smp) > 1 for smp, _ in table.values()):
         return  # a multi-sample plate the policy never sees (observed, not in the batch): nothing to judge
 
+    budget = [1500]  # states visited by the exhaustive walk (bounded: every state costs 2-3 selections)
+
     def walk(scr, scr_path, batch, depth, chooser, trace):
         """One selection order (chooser picks the winner) or, when chooser is None, all of them."""
         if depth >= plan["max_len"]:
+            return True
+        budget[0] -= 1
+        if budget[0] < 0:
+            stats.probe("exhaustive_walk_cut_by_budget")
             return True
         tab = _plate_table(scr)
         choices = None
@@ -280,7 +286,7 @@ def _run_screen(plan, spec, scratch, log, stats, violation):
         return True
 
     trace = []
-    if plan["enumerate"]:
+    if plan["enumerate"] and path == "func":
         ok = walk(screen, spath, [], 0, None, trace)
         stats.probe("all_winner_orders_walked")
     else:
